@@ -125,7 +125,7 @@ TWorkload ==
        [] OTHER -> /\ devs' = Add(devs, {"DIV unknown-workload"}) /\ P' = P /\ wk' = wk
   /\ Same /\ UNCHANGED <<fired, primalMax>>
 TWait == /\ Ev("wait") /\ wk' = [wk EXCEPT ![Me].parked = TRUE]
-         /\ devs' = Add(devs, Tag(P.fringe # EmptyBag, "DIV waits-with-open-nodes") \cup Tag(P.ongoing = 0, "C04 waits-while-nothing-in-progress"))
+         /\ devs' = Add(devs, Tag(P.fringe # EmptyBag, "DIV waits-with-open-nodes") \cup Tag(P.ongoing = 0, "DIV waits-while-nothing-in-progress"))
          /\ Same /\ UNCHANGED <<P, fired, primalMax>>
 
 \* ------------------------------------------------------------------ cache operations (scheduled mode only: totally ordered)
